@@ -118,6 +118,8 @@ def returned_constant(ret):
     if not ret.children:
         return None
     e = ret.children[0].strip()
+    if e.k == "BinaryOperator" and e.j.get("synthetic") == "return":
+        e = e.children[1].strip()
     if e.k == "DeclRefExpr" and e.j.get("dk") == "enum":
         return e.j["name"]
     if e.k == "IntegerLiteral":
@@ -126,7 +128,8 @@ def returned_constant(ret):
 
 
 def returns_of_constant(fn, name):
-    return [r for r in fn.returns() if returned_constant(r) == name]
+    """returns of the constant, including those of virtually inlined helpers (whose value the caller hands on)"""
+    return [r for r in fn.returns(inlined=True) if returned_constant(r) == name]
 
 
 def unique_call(fn, callee):
